@@ -164,6 +164,39 @@ mut("rf-new-node-len-first", ARN, """            let index = self.nodes.len();
 mut("rf-append-skip1", IDR, "        if self.ancestors(arena).any(|ancestor| new_child == ancestor) {\n            return Err(NodeError::AppendAncestor);",
     "        if self.ancestors(arena).skip(1).any(|ancestor| new_child == ancestor) {\n            return Err(NodeError::AppendAncestor);", [], silent=True,
     note="self is skipped: new_child != self has already been checked")
+mut("add-count-live", ARN, "impl<T> Default for Arena<T> {", """impl<T> Arena<T> {
+    /// Number of live (not removed) nodes.
+    pub fn count_live(&self) -> usize {
+        let mut n = 0;
+        for node in self.nodes.iter() {
+            if !node.is_removed() {
+                n += 1;
+            }
+        }
+        n
+    }
+
+    /// Ids of all live nodes, in slot order.
+    pub fn live_ids(&self) -> impl Iterator<Item = NodeId> + '_ {
+        self.nodes
+            .iter()
+            .enumerate()
+            .filter(|(_, n)| !n.is_removed())
+            .filter_map(|(i, n)| NonZeroUsize::new(i + 1).map(|ix| NodeId::from_non_zero_usize(ix, n.stamp)))
+    }
+}
+
+#[cfg(feature = "std")]
+impl<T: std::fmt::Debug> Arena<T> {
+    /// Dumps the arena to stderr (std only).
+    pub fn dump(&self) {
+        for (i, n) in self.nodes.iter().enumerate() {
+            eprintln!("{}: {:?}", i + 1, n);
+        }
+    }
+}
+
+impl<T> Default for Arena<T> {""", [], silent=True, note="new read-only API (a loop over the slot slice, an iterator adaptor chain, a std-only helper): no property is affected")
 mut("rf-is-removed-cmp", IDR, """        self.0.is_negative()""", """        self.0 < 0""", [], silent=True)
 mut("rf-get-node-id-at-match", ARN, """        self.nodes
             .get(index0)
